@@ -8,11 +8,8 @@ package c27
 import (
 	"crypto/sha256"
 	"encoding/binary"
-	"strings"
 
 	"github.com/ontio/ontology/common"
-
-	"verif/harness/hx"
 )
 
 type table struct {
@@ -27,7 +24,7 @@ func (t *table) h(pre []byte) common.Uint256 {
 	k := string(pre)
 	if !t.seen[k] {
 		t.seen[k] = true
-		t.entries = append(t.entries, "("+hx.CoqBytes(pre)+","+hx.CoqBytes(d[:])+")")
+		t.entries = append(t.entries, "("+cb(pre)+","+cb(d[:])+")")
 	}
 	return d
 }
@@ -41,7 +38,7 @@ func (t *table) children(l, r common.Uint256) common.Uint256 {
 	return t.h(append(b, r[:]...))
 }
 
-func (t *table) coq() string { return "[" + strings.Join(t.entries, ";\n   ") + "]" }
+func (t *table) coq() string { return consList(t.entries) }
 
 // refLevelRoot: pair up level by level, promoting an odd last element.
 func (t *table) refLevelRoot(hs []common.Uint256) common.Uint256 {
